@@ -916,6 +916,8 @@ class Exec:
                 mk = "std::iter::Iterator::all"
             elif nt and nt.endswith(" as std::iter::Iterator>::for_each"):
                 mk = "std::iter::Iterator::for_each"
+            elif nt and nt.endswith(" as std::iter::Iterator>::next") and nt.startswith(("<std::iter::Map<", "<std::iter::Filter<")):
+                mk = "chain::next"      # a `for` loop over `inner.filter(p).map(f)`: the adaptors applied to the inner item
             elif nt and nt.endswith(" as std::ops::Try>::branch"):
                 mk = "std::ops::Try::branch"
             elif nt and nt.endswith(">::from_residual") and " as std::ops::FromResidual<" in nt:
@@ -1684,6 +1686,24 @@ def _model_repeat_n(ex, body, st, bb, t, c, args, frame, cont, target, nt, span)
             n = ("c", int(a["int"]), "usize") if "int" in a else ("param_const", a["display"])
     if n is None:
         return
+    arr = strip(args[0]) if len(args) == 2 else None
+    if isinstance(arr, tuple) and arr[0] == "agg" and arr[1] == "array" and isinstance(n, tuple) and n[0] == "c" and \
+            len(arr[3]) == n[1] and n[1] <= 8:
+        # `[a, b, c].map(f)`: the array of f(a), f(b), f(c) - the closure applied to each element in turn
+        def seq(s, k, acc):
+            if k == len(arr[3]):
+                for r in cont(s, ("agg", "array", None, tuple(acc), None, ())):
+                    yield r
+                return
+            for (s2, ret, ex_) in _run_closure(ex, body, s, bb, frame, cb, clos, [arr[3][k]], target, nt, span, "each"):
+                if ex_ is not None:
+                    yield (s2, ex_, None)
+                    continue
+                for r in seq(s2, k + 1, acc + [ret]):
+                    yield r
+        for r in seq(st, 0, []):
+            yield r
+        return
     st.events.append(Event("repeat_begin", bb, frame, body, target=target, ntarget=nt, count=n, closure=cb.name,
                            span=span))
     elem = ("unk", "elem", fresh())
@@ -1969,6 +1989,42 @@ def _chain_next(ex, body, st, bb, frame, it, ntgt, span, target, nt):
     yield (s1, ("field", "0", ("variant", "Some", res)), None)
 
 
+def _model_chain_next(ex, body, st, bb, t, c, args, frame, cont, target, nt, span):
+    """`Iterator::next(&mut it)` where `it` is `inner.filter(p).map(f)` (what a `for` loop over an adaptor chain calls): the inner
+    `next` (reported as the event a loop over `inner` itself would produce), the adaptors applied to its item; an item the
+    filter rejects asks the inner iterator again."""
+    it = strip(args[0]) if args else None
+    while isinstance(it, tuple) and it[0] in ("ref", "deref", "load"):
+        it = strip(it[1])
+    while isinstance(it, tuple) and it[0] == "call" and norm(it[1]).endswith("::into_iter") and it[2]:
+        it = strip(it[2][0])
+    if not (isinstance(it, tuple) and it[0] == "call" and norm(it[1]) in ("std::iter::Iterator::map", "std::iter::Iterator::filter")):
+        return
+    full = (c.full or "") if c is not None else (nt or "")
+    ntgt = "<%s as std::iter::Iterator>::next" % _innermost_iter_type(full, it)
+    rounds = max(2, ex.unroll + 1)
+
+    def step(s, k):
+        for (s1, item, e_) in _chain_next(ex, body, s, bb, frame, it, ntgt, span, target, nt):
+            if e_ is not None:
+                yield (s1, e_, None)
+            elif item is None:
+                for r in cont(s1, _NONE):
+                    yield r
+            elif item == "skip":
+                if k + 1 < rounds:
+                    for r in step(s1, k + 1):
+                        yield r
+                else:
+                    ex._count()
+                    yield (s1, ("retry", bb), None)
+            else:
+                for r in cont(s1, _some(item)):
+                    yield r
+    for r in step(st, 0):
+        yield r
+
+
 def _innermost_iter_type(full, it):
     """the type whose `next` is reported: that of the innermost iterator of the chain (`vec::Drain<Rc<T>>`)"""
     m = re.match(r"^<(.*) as std::iter::Iterator>::\w+", full or "")
@@ -2230,6 +2286,7 @@ HIGHER_ORDER = {
     "std::mem::replace": _model_local_take,
     "std::mem::take": _model_local_take,
     "std::iter::Iterator::for_each": _model_iter_for_each,
+    "chain::next": _model_chain_next,
     "std::iter::Iterator::any": _mk_iter_any("any"),
     "std::iter::Iterator::all": _mk_iter_any("all"),
     "std::ops::Try::branch": _model_try_branch,
